@@ -50,20 +50,25 @@ def run_witness(ctx, name, prog_target):
                    "BROKEN WITNESS: the twin of %s (without the offending lines) does not compile: %s" % (name, errs[:2]), path)
             return
         ctx.ob("R-TYPE", "witness:" + name, "twin-compiles", True, "the twin of %s compiles against the current crate" % name, path, nontrivial=False)
-        rc, errs = _compile(path, deps, rmeta, tmp)
-        by_line = {}
-        for code, lines, msg in errs:
-            for ln in lines:
-                by_line.setdefault(ln, []).append((code, msg))
+        unexpected = []
         for ln, (code, label) in sorted(marks.items()):
+            # one compile per offending line (errors of different compiler phases / deduplicated
+            # obligations would otherwise hide each other)
+            one = os.path.join(tmp, "%s_l%d.rs" % (name, ln))
+            open(one, "w").write("\n".join((l if (i == ln or i not in marks) else "") for i, l in enumerate(src, 1)) + "\n")
+            rc, errs = _compile(one, deps, rmeta, tmp)
+            by_line = {}
+            for c, lines, msg in errs:
+                for l2 in lines:
+                    by_line.setdefault(l2, []).append((c, msg))
             got = by_line.get(ln, [])
             ok = any(c == code for c, _ in got)
+            unexpected += [(l2, c) for l2, cs in by_line.items() if l2 != ln for c, _ in cs]
             key = re.sub(r"[^A-Za-z0-9_:<>,& ]+", "", label)[:80] or ("line%d" % ln)
             ctx.ob("R-TYPE", "witness:" + name, key, ok,
                    "rejected by the compiler as required (%s): %s" % (code, label) if ok else
                    "the compiler ACCEPTS (or rejects for another reason %s) what must not type-check: %s" % ([c for c, _ in got], label),
                    "%s:%d" % (path, ln))
-        unexpected = [(ln, c) for ln, cs in by_line.items() if ln not in marks for c, _ in cs]
         if unexpected:
             ctx.ob("R-TYPE", "witness:" + name, "no-unexpected-errors", False, "BROKEN WITNESS: unexpected errors %s" % unexpected[:3], path)
     finally:
